@@ -95,7 +95,9 @@ def unit_rac(eng, tier="quick"):
               ("err-branch", "br .+1000\nmake_raw\n", 1), ("err-link", ".link 1\n.link 2\nmake_raw\n", 1),
               # orders of several diagnostics: the latch must survive whatever is reported afterwards (also a warning that -W filters out)
               ("err-then-warn", "a: a:\n.byte\nmake_raw\n", 1), ("warn-then-err", ".byte\na: a:\nmake_raw\n", 1), ("err-then-filtered-warn", "a: a:\nmov @(r1), r2\nmake_raw\n", 1),
-              ("parse-err-then-warn", "r0: nop\n.byte\nmake_raw\n", 1), ("two-errors", "a: a:\nb: b:\nmake_raw\n", 1)]
+              ("parse-err-then-warn", "r0: nop\n.byte\nmake_raw\n", 1), ("two-errors", "a: a:\nb: b:\nmake_raw\n", 1),
+              # a diagnostic on the very last line of a file that has no final newline, and at the end-of-file position
+              ("warn-last-line-no-newline", "make_raw\nmov #1, r0\n.word", 0), ("err-last-line-no-newline", "make_raw\n.word 200000", 1), ("warn-at-eof", "make_raw\nnop\n.word\n", 0)]
     wsel = [[], ["-Wall"], ["-Wno-implicit-operand"], ["-Wmeta-typo", "-Wno-not-implemented"]]
     if tier == "quick":
         wsel = wsel[:3]
@@ -133,8 +135,57 @@ def unit_rac(eng, tier="quick"):
     return dict(unit="cli-rac", func="_cli.main_cli (run-time check)", paths=n, obligations=[ob], wall=0.0)
 
 
+def unit_bounded_handlers(eng, tier="quick"):
+    """bounded stand-in for the report renderers (string formatting code outside the subset): BareHandler and GraphicalHandler never raise,
+    whatever spans they are given - every start <= end pair of positions in small texts (with and without a final newline, tabs, empty,
+    non-ASCII, several lines), one- and two-part reports, parts in two files, every severity"""
+    texts = ["", "a", "a\n", "a\nb", "ab\n\n", "\tx y\n\n z", "ab\ncd\nef\ngh\nij\nkl\nmn\nop", "\u00e9\u4e16\n\tq", "\n\n\n"]
+    if tier != "quick":
+        texts += ["a\r\nb", "x" * 200 + "\ny", "\n".join("l%d" % i for i in range(40))]
+    code = r'''
+import io, sys, contextlib, itertools
+from pdpy11 import reports
+from pdpy11.context import Context
+texts = %r
+bad, n = [], 0
+for hname in ("BareHandler", "GraphicalHandler"):
+    h = getattr(reports, hname)()
+    for ti, t in enumerate(texts):
+        pos = list(range(len(t) + 1))
+        if len(pos) > 14:
+            pos = pos[:5] + pos[len(pos) // 2 - 1:len(pos) // 2 + 2] + pos[-5:]
+        for a, b in itertools.combinations_with_replacement(pos, 2):
+            s1, e1 = Context("f.mac", t), Context("f.mac", t)
+            s1.pos, e1.pos = a, b
+            other_s, other_e = Context("g.mac", "zz\nyy"), Context("g.mac", "zz\nyy")
+            other_s.pos, other_e.pos = 1, 5
+            s2, e2 = Context("f.mac", t), Context("f.mac", t)
+            s2.pos, e2.pos = 0, len(t)
+            for prio in (reports.warning, reports.error, reports.critical):
+                for parts in ([(s1, e1, "one")], [(s1, e1, "multi\nline text")], [(s1, e1, "first"), (s2, e2, "whole file")], [(s1, e1, "here"), (other_s, other_e, "and there")],
+                              [(other_s, other_e, "there"), (s1, e1, "and here")]):
+                    n += 1
+                    try:
+                        with contextlib.redirect_stdout(io.StringIO()), contextlib.redirect_stderr(io.StringIO()):
+                            h(prio, "some-id", *parts)
+                    except Exception as e:
+                        if len(bad) < 8:
+                            bad.append([hname, t, a, b, len(parts), type(e).__name__ + ": " + str(e)[:60]])
+result = [n, bad]
+''' % (texts,)
+    r = driver.native([{"kind": "py", "code": code}], driver.tree_root(), timeout=1800)[0]
+    n, bad = r["result"] if r["status"] == "ok" else (0, [str(r)[:400]])
+    ob = dict(label="BareHandler-and-GraphicalHandler-never-raise-for-any-span(so the report format cannot turn a run into the internal-error path)", kind="bounded",
+              status="proved" if n and not bad else "failed", secs=0.0, path=[], witness=None, detail=str(bad[:4]), events=[], smt2=None, backend="cpython-native", unit="bounded-handlers",
+              func="reports.BareHandler / reports.GraphicalHandler (bounded stand-in)",
+              bound="%d texts (empty, with/without final newline, tabs, non-ASCII, up to 8 lines) x every start<=end position pair (sampled beyond 14 positions) x 3 severities x 5 part layouts" % len(texts),
+              cases=n, cfg=dict(kind="bounded"))
+    return dict(unit="bounded-handlers", func="reports.BareHandler / reports.GraphicalHandler (bounded stand-in)", paths=n, obligations=[ob], wall=0.0)
+
+
+
 def units(tier):
-    us = [("rac", "unit_rac", dict(tier=tier)), ("filter", "unit_filter_handler", {}), ("handler-frame", "unit_handler_frame", {})]
+    us = [("rac", "unit_rac", dict(tier=tier)), ("filter", "unit_filter_handler", {}), ("handler-frame", "unit_handler_frame", {}), ("bounded-handlers", "unit_bounded_handlers", dict(tier=tier))]
     for exc in (None, "RecoverableError", "UnrecoverableError", "TypeError"):
         for errcond in (False, True):
             for h in ("callable", "filter"):
@@ -142,6 +193,8 @@ def units(tier):
     for p in ("error", "critical", "warning"):
         for latched in (False, True):
             us.append(("emit_report[%s,%s]" % (p, latched), "unit_emit_report", dict(prio=p, latched=latched)))
+    for sh in cli_c.EMIT_SHAPES:
+        us.append(("emit_files[%s]" % ",".join(sh), "unit_emit_files", dict(shape=sh)))
     for of in OUTFILES:
         for lst in (False, True):
             for ib in (False, True):
@@ -208,6 +261,12 @@ def replay(o, tree):
             return r
     if o.get("unit", "").startswith("emit_report["):
         return replay_emit_report(tree)
+    if (o.get("cfg") or {}).get("kind") == "emit_files":
+        return cli_c.replay_emit_files(o, tree)
+    if o.get("unit", "").startswith("main_cli["):
+        r = cli_c.replay_cli(o, tree)
+        if r is not None and r["reproduced"]:
+            return r
     old = os.environ.get("PDPY11_SRC")
     os.environ["PDPY11_SRC"] = tree
     try:
